@@ -120,6 +120,7 @@ class Program:
                     tree = ast.parse(src, filename=path)
                 except (SyntaxError, UnicodeDecodeError, OSError) as e:
                     raise AnalysisError(f"cannot parse {rel}: {e}")
+                alpha.strip_logging(tree)
                 ren = alpha.normalise(name, tree, raw)
                 if ren:
                     self.renamed[name] = ren
